@@ -27,7 +27,7 @@ func (C17) Generate(r *core.Rand, tier string, idx int) *core.Scenario {
 	sc.Cfg["maxmsgs"] = r.Range(2, 8)
 	sc.Cfg["maxuid"] = r.Range(4, 24)
 	sc.Cfg["labels"] = r.Intn(2)
-	if r.P(1, 4) {
+	if r.P(1, 2) {
 		sc.Cfg["deepcreate"] = 1 // CREATE / RENAME that have to create parent mailboxes
 	}
 	//                 app cop mov cre ren cba cmb cbx exp del
